@@ -1,5 +1,5 @@
 import FcProofs.Lemmas.Diff
-namespace Fc
+namespace Fc.C14
 section Dict
 variable {κ : Type} [BEq κ] [LawfulBEq κ] {ν μ : Type}
 
@@ -90,9 +90,9 @@ theorem dictFromList_nodup (l : List (κ × ν)) (h : (keysOf l).Nodup) : dictFr
   simpa using this
 
 end Dict
-end Fc
+end Fc.C14
 
-namespace Fc
+namespace Fc.C14
 section Matching
 variable {κ : Type} [BEq κ] [LawfulBEq κ] {ν : Type}
 
@@ -161,9 +161,9 @@ theorem removeFirst_key_some {k : κ} {v : ν} {l : List (κ × ν)} (hnd : (key
           exact hl k''
 
 end Matching
-end Fc
+end Fc.C14
 
-namespace Fc
+namespace Fc.C14
 section Matching2
 variable {κ : Type} [BEq κ] [LawfulBEq κ] {ν : Type}
 
@@ -254,9 +254,9 @@ theorem findMatches_spec (l1 l2 : List (κ × ν)) (h1 : (keysOf l1).Nodup) (h2 
         exact List.Perm.cons _ ihp
 
 end Matching2
-end Fc
+end Fc.C14
 
-namespace Fc
+namespace Fc.C14
 section Entries
 variable {κ : Type} [BEq κ] [LawfulBEq κ]
 
@@ -380,4 +380,4 @@ theorem diffEntries_spec (l1 l2 : List (κ × NdArr)) (ok : ListsOk l1 l2) :
     rcases h1 : dictGet k l1 with _ | a1 <;> rcases h2 : dictGet k l2 with _ | a2 <;> simp [specEntry]
 
 end Entries
-end Fc
+end Fc.C14
